@@ -152,6 +152,8 @@ def global_pass(spec, start, nmax, inst, ctx):
                     continue
                 except NotImplementedError:
                     return explored
+                except Exception as e:  # pylint: disable=broad-except
+                    raise Violation("no-refusal", f"sampling size {n} {vals} of an empty size raised {type(e).__name__} instead of the documented InvalidOperationError") from e
                 raise Violation("no-refusal", f"sampling size {n} {vals} returned {obj} although the class has no such object")
         for params, count in sorted(truth.items()):
             if count > 14:
